@@ -87,6 +87,29 @@ func snippet(r *core.Rng, k int, tags map[string]bool) string {
 		b.WriteString(" var o = { w: 1, f: f }; var acc = []; for (var i = 0; i < 4; i++) acc.push(f(i)); with (o) { acc.push(w + f(2)); w = 9; var viaWith = w; }\n")
 		b.WriteString(" acc.push(o.w, viaWith, (0, eval)('typeof dyn0'), (function () { 'use strict'; eval('var se = 1'); return typeof se; })());\n")
 		b.WriteString(" __out.push(acc.join('|')); })(); } catch (e) { __out.push('E:' + (e && e.name)); }\n")
+		// eval-extended scopes in every kind of scope a Program stores a names map for: parameter scopes (initialisers),
+		// function bodies, arrows, methods, blocks, catch, for-let heads, switch, class field initialisers, generators
+		dyn := []string{
+			"(function (a = eval('var z%d = %d; z%d'), b = typeof z%d) { return a + b + typeof z%d; })()",
+			"(function (a, b = (() => eval('var y%d = a + %d'))()) { var c = typeof y%d; eval('var x%d = 1'); return b + c + typeof x%d; })(%d)",
+			"((p = eval('var q%d = %d'), r = q%d) => r + typeof q%d)()",
+			"(function () { try { throw %d } catch (e) { eval('var c%d = e'); } return c%d + (function (k = eval('var i%d = 2')) { return typeof i%d })(); })()",
+			"(function () { for (let i = 0, f = eval('var l%d = %d'); i < 2; i++) { eval('var m' + i + ' = i'); } return l%d + m0 + m1; })()",
+			"(function (s) { switch (s) { case 1: eval('var w%d = %d'); default: let t = 2; eval('var v%d = t'); } return (typeof w%d) + v%d; })(%d %% 3)",
+			"(new (class { f = eval('var cf%d = %d; cf%d'); g = typeof cf%d; m(a = eval('var cm%d = 1')) { return a + typeof cm%d } })).m() + ''",
+			"(function* (a = eval('var g%d = %d')) { yield a; eval('var h%d = 2'); yield typeof g%d + typeof h%d; })().next().value",
+			"(function () { eval('function ef%d() { return %d }'); { eval('var blk%d = ef%d()'); } return blk%d + typeof ef%d; })()",
+			"(function (a) { with ({a: %d}) { eval('var wv%d = a'); } return wv%d + a; })(%d)",
+		}
+		for i := 0; i < 3; i++ {
+			t := dyn[r.Intn(len(dyn))]
+			k := r.Range(1, 9)
+			args := make([]any, strings.Count(t, "%d"))
+			for j := range args {
+				args[j] = k
+			}
+			b.WriteString(pushExpr(fmt.Sprintf(t, args...)))
+		}
 	case 4: // constant-folded expressions
 		tags["constant-folding"] = true
 		exprs := []string{"1 + 2 * 3", `"a" + "b" + 1`, "typeof 1", "10n ** 20n + 1n", "-(-0)", "!0 + !1", "void 0", "1 / 0 - 1 / 0", "2 ** 53 + 1", `"é".length + "😀".length`, "1 < 2 == true", "7 % 3 << 2", "0.1 + 0.2", `"x" + 1n`, "(1, 2, 3)", "null ?? 5", "0 || 'z'", "1 && 2"}
